@@ -1,6 +1,8 @@
 package cachedproducer
 
 import (
+	"errors"
+
 	"github.com/Fantom-foundation/lachesis-base/kvdb"
 	"github.com/Fantom-foundation/lachesis-base/zzverif/sym"
 	"github.com/Fantom-foundation/lachesis-base/zzverif/vstore"
@@ -18,6 +20,7 @@ func (s *vCountStore) Drop()        { s.p.drops[s.name]++ }
 
 type vProducer struct {
 	opens, closes, drops map[string]int
+	failNext             bool // the next real open fails (consumed by it)
 }
 
 func newVProducer() *vProducer {
@@ -25,14 +28,18 @@ func newVProducer() *vProducer {
 }
 
 func (p *vProducer) OpenDB(name string) (kvdb.Store, error) {
+	if p.failNext {
+		p.failNext = false
+		return nil, errors.New("open failed")
+	}
 	p.opens[name]++
 	return &vCountStore{vstore.New(), p, name}, nil
 }
-func (p *vProducer) Names() []string                                     { return nil }
-func (p *vProducer) NotFlushedSizeEst() int                              { return 0 }
-func (p *vProducer) Flush(id []byte) error                               { return nil }
-func (p *vProducer) Initialize(n []string, id []byte) ([]byte, error)    { return id, nil }
-func (p *vProducer) Close() error                                        { return nil }
+func (p *vProducer) Names() []string                                  { return nil }
+func (p *vProducer) NotFlushedSizeEst() int                           { return 0 }
+func (p *vProducer) Flush(id []byte) error                            { return nil }
+func (p *vProducer) Initialize(n []string, id []byte) ([]byte, error) { return id, nil }
+func (p *vProducer) Close() error                                     { return nil }
 
 type vHandle struct {
 	name   string
@@ -46,7 +53,10 @@ var (
 	vc27H  = [...]string{"h0", "h1", "h2", "h3", "h4", "h5"}
 )
 
-func verifC27(all bool, nOps int) {
+func verifC27(all bool, nOps int) { verifC27x(all, nOps, false, 2) }
+
+// withFail: a fourth operation, an OpenDB during which the underlying open fails (if it is attempted at all)
+func verifC27x(all bool, nOps int, withFail bool, nNames int) {
 	under := newVProducer()
 	var prod kvdb.DBProducer
 	if all {
@@ -63,14 +73,29 @@ func verifC27(all bool, nOps int) {
 	wantDrops := map[string]int{}
 	opensVia := map[string]int{} // OpenDB calls made through the caching producer
 	for i := 0; i < nOps; i++ {
-		op := sym.Choice(vc27Op[i], 3)
-		if op != 0 && len(handles) == 0 {
+		kinds := 3
+		if withFail {
+			kinds = 4
+		}
+		op := sym.Choice(vc27Op[i], kinds)
+		if (op == 1 || op == 2) && len(handles) == 0 {
 			op = 0
 		}
 		switch op {
-		case 0:
-			name := names[sym.Choice(vc27N[i], 2)]
+		case 0, 3:
+			name := names[sym.Choice(vc27N[i], nNames)]
+			under.failNext = op == 3
 			s, err := prod.OpenDB(name)
+			if op == 3 && ref[name] == 0 {
+				sym.Assert(err != nil && !under.failNext, "a failing open of the underlying database is reported")
+				sym.Reach("failed-open")
+				// a failed open does not count as a reference; the statement does not speak about failing opens,
+				// so the attempt is allowed to re-arm the drop (the code does) and counts for "once per open"
+				armed[name] = true
+				opensVia[name]++
+				break
+			}
+			under.failNext = false
 			sym.Assert(err == nil && s != nil, "OpenDB succeeds")
 			if ref[name] > 0 {
 				sym.Assert(s == cur[name], "opening an open name returns the same store")
@@ -116,3 +141,4 @@ func VerifH_C27_all4()  { verifC27(true, 4) }
 func VerifH_C27_all5()  { verifC27(true, 5) }
 func VerifH_C27_wrap4() { verifC27(false, 4) }
 func VerifH_C27_wrap5() { verifC27(false, 5) }
+func VerifH_C27_fail5() { verifC27x(sym.Choice("all", 2) == 1, 5, true, 1) }
